@@ -8,6 +8,7 @@ CONSTANTS
   KF_V1OmitsHDInfo = FALSE
   KF_V12OmitsEmpty = FALSE
   KF_MarkedFlagUncovered = FALSE
-INVARIANTS TypeOK Sound HonestAccepted Conforms EveryFormHonest MutationRejected CoverageOK Injective
+  KF_CoinbaseRider = FALSE
+INVARIANTS TypeOK Sound HonestAccepted Conforms EveryFormHonest MutationRejected CoverageOK CoinbaseClean Injective
 VIEW View
 CHECK_DEADLOCK FALSE
